@@ -15,7 +15,7 @@ from ..execu import run
 from ..runner import short
 
 ID = "C08"
-N = {"quick": 2500, "thorough": 90000}
+N = {"quick": 16000, "thorough": 90000}
 TIME_BUDGET = {"quick": 50, "thorough": 540}
 MIN_NONTRIVIAL = {"quick": 300, "thorough": 3000}
 RULE = ("family B (80%): generated signatures over the five parameter kinds (0-2 positional-only, 0-2 positional-or-keyword, "
